@@ -656,8 +656,12 @@ impl Server for GitSyncServer {
             history_segment,
         };
         let version_path = self.add_version_by_parent_version_id(&version)?;
+        #[cfg(gothenburgbitfactory_taskchampion_verif)]
+        crate::server::verif::failpoint("git.add_version.after_version_file")?;
         self.meta.latest_version = version_id;
         let meta_path = self.write_meta()?;
+        #[cfg(gothenburgbitfactory_taskchampion_verif)]
+        crate::server::verif::failpoint("git.add_version.after_meta")?;
 
         // Commit and push, reverting if push fails.
         self.git.stage_and_commit(
